@@ -35,7 +35,7 @@ func ExpectedInfo(f *cat.Fn) (in, out []string) {
 		if p.M == "grp" || p.M == "soft" {
 			t = "[]" + t
 		}
-		in = append(in, infoToks(t, p.M == "opt", k.Name, k.Group))
+		in = append(in, infoToks(t, p.M == "opt", univ.RealName(k.Name), k.Group))
 	}
 	for _, r := range f.Rs {
 		for _, ks := range r.Ks {
@@ -44,7 +44,7 @@ func ExpectedInfo(f *cat.Fn) (in, out []string) {
 			if f.Kind == "dec" && r.M == "grp" {
 				t = "[]" + t
 			}
-			out = append(out, infoToks(t, false, k.Name, k.Group))
+			out = append(out, infoToks(t, false, univ.RealName(k.Name), k.Group))
 		}
 	}
 	return in, out
